@@ -39,6 +39,12 @@ func (interp *Interpreter) gta(root *node, rpath, importPath, pkgName string) ([
 				return false // skip statement block if not the entry point
 			}
 
+		case ifStmt0, ifStmt1, ifStmt2, ifStmt3, switchStmt, switchIfStmt, typeSwitch, selectStmt,
+			forStmt0, forStmt1, forStmt2, forStmt3, forStmt4, forStmt5, forStmt6, forStmt7, forRangeStmt:
+			// The variables defined by the init statement of a statement, or in its
+			// clauses, are not global.
+			return false
+
 		case defineStmt:
 			var (
 				atyp *itype
